@@ -30,13 +30,16 @@ def game_of(m):
     return "base"
 
 
-def frozen(ctx, prop_monitor, pre, obj, what):
-    """C14 clause for a monitored call: argument snapshot before == after."""
+def frozen(ctx, prop_monitor, pre, obj, what, also=None):
+    """C14 clause for a monitored call: argument snapshot before == after.
+    also: a property whose own statement says the inputs stay unchanged (C18)."""
     if pre is None:
         return
     d = diff_snapshots(pre, snapshot(obj))
     if d:
         ctx.violate("C14", prop_monitor, "argument_modified", f"{what}: {d}", dict(diff=d), dict(op=prop_monitor, arg=what))
+        if also:
+            ctx.violate(also, prop_monitor, "input_modified", f"{what} was modified by the call: {d}", dict(diff=d), dict(arg=what))
     else:
         ctx.held(prop_monitor + ".frozen", "argument_unchanged")
 
@@ -412,8 +415,8 @@ class JudgeHitsoundCopy:
         src = args[0] if args else kwargs["osu_src"]
         tgt = args[1] if len(args) > 1 else kwargs["osu_tgt"]
         if pre:
-            frozen(ctx, "hitsound_copy", pre["src"], src, "osu_src")
-            frozen(ctx, "hitsound_copy", pre["tgt"], tgt, "osu_tgt")
+            frozen(ctx, "hitsound_copy", pre["src"], src, "osu_src", also="C18")
+            frozen(ctx, "hitsound_copy", pre["tgt"], tgt, "osu_tgt", also="C18")
         try:
             s_notes, t_notes = osu_notes(src), osu_notes(tgt)
         except Exception:
